@@ -1637,8 +1637,10 @@ static void vi(void)
 					if (!vi_wclose())
 						mod = VC_WIN;
 				if (k == 'x')
-					if (!vi_wswap())
+					if (!vi_wswap()) {
+						vi_switch(w_cur);	/* the height of the half the window is in now */
 						mod = VC_ALL;
+					}
 				if (k == TK_CTL(']') || k == ']')
 					mod = vc_tag(1);
 				if (k == 'g') {
